@@ -18,9 +18,22 @@ func VerifConcInit() {
 	munmap = func(d *mmap.Data) error {
 		if len(d.Data) > 0 {
 			vatomic.MarkClosed(unsafe.Pointer(&d.Data[0]), len(d.Data))
+			verifPending = append(verifPending, d)
 		}
 		return nil
 	}
+}
+
+// mappings "unmapped" by the code under test during a scenario; really
+// unmapped by VerifConcRelease once the scenario is over (a long run would
+// otherwise exhaust the process's mappings)
+var verifPending []*mmap.Data
+
+func VerifConcRelease() {
+	for _, d := range verifPending {
+		mmap.Munmap(d)
+	}
+	verifPending = nil
 }
 
 func (v *VerifFile) Register(c *Counter) { v.f.register(c) }
@@ -39,6 +52,15 @@ func (v *VerifFile) CurLen() int {
 		return 0
 	}
 	return len(m.mapping.Data)
+}
+
+// CurLimit: the allocation limit of the current mapping (unmanaged setup only).
+func (v *VerifFile) CurLimit() uint32 {
+	m := v.f.current.Peek()
+	if m == nil || m.mapping == nil {
+		return 0
+	}
+	return *(*uint32)(unsafe.Pointer(&m.mapping.Data[m.hdrLen+limitOff]))
 }
 
 func VerifWord(c *Counter) uint64    { return c.state.bits.Peek() }
